@@ -251,6 +251,8 @@ def run_family(prop, tier, plan, free_plan, assumptions, mc_extra=(), post=None,
             seen.add(tr)
             res.violation("%s at trace line %d of scenario %d" % (code, line, tr), scen.get(tr))
     tm["validate"] = round(time.time() - t0, 1); t0 = time.time()
+    impl_binding(res, plan, scen, tr_path)
+    tm["impl_binding"] = round(time.time() - t0, 1); t0 = time.time()
     res.cov["phase_seconds"] = tm
     res.cov["traces_validated_against_impl"] = n - len(inc)
     res.cov["evaluations"] = n
@@ -272,6 +274,75 @@ def run_family(prop, tier, plan, free_plan, assumptions, mc_extra=(), post=None,
     if post:
         post(res, rng, vh, scen)
     return res.finish()
+
+
+IMPL = {"tumbling": "TraceTumblingImpl", "sliding": "TraceSlidingImpl"}
+
+
+def impl_binding(res, plan, scen, tr_path):
+    """State-level binding of the code-shaped models (TraceTumblingImpl / TraceSlidingImpl): the model's own actions are stepped through
+    the traces of the forced replays and the state reported by the hooks from inside the engine (rows buffered, current slot, windows
+    open for late rows, rows of a firing, watermark of a completed pass) as well as every delivery must be the model's. One TLC run per
+    model configuration. A mismatch is MODEL-DRIFT: a note, never a verdict."""
+    from concurrent.futures import ThreadPoolExecutor
+    cfgs = {}
+    for kind, c in plan:
+        if kind in IMPL and os.path.exists(os.path.join(SPEC, IMPL[kind] + ".tla")):
+            cfgs[(kind, c["size"], c.get("slide", 0), c["moo"], c["al"])] = c
+    if not cfgs:
+        return
+    # the traces of each configuration, in a file of their own
+    want = {}
+    for n, sc in scen.items():
+        if sc.get("free"):
+            continue
+        k = (sc["cfg"]["kind"], sc["cfg"]["size"], sc["cfg"].get("slide", 0), sc["cfg"]["moo"], sc["cfg"]["al"])
+        if k in cfgs:
+            want[n] = k
+    files = {k: open(os.path.join(vlib.scratch(), "impl_%s_%d_%d_%d_%d.ndjson" % k), "w") for k in cfgs}
+    for line in open(tr_path):
+        m = line.find('"tr":')
+        if m < 0:
+            continue
+        j = m + 5
+        while line[j] in " ":
+            j += 1
+        e = j
+        while line[e].isdigit():
+            e += 1
+        k = want.get(int(line[j:e]))
+        if k:
+            files[k].write(line)
+    for f in files.values():
+        f.close()
+
+    def one(k):
+        kind, size, slide, moo, al = k
+        consts = "Size = %d MOO = %d AL = %d MaxTs = 99 MaxEv = 12 ChanCap = 100 Reanchor = TRUE Emit = FALSE Dev = {}" % (size, moo, al)
+        if kind == "sliding":
+            consts += " Slide = %d LateAll = TRUE RegisterEarly = TRUE" % slide
+        cfg = "SPECIFICATION Spec0\nCONSTANTS %s\nPOSTCONDITION AllConsumed\nCHECK_DEADLOCK FALSE\n" % consts
+        path = os.path.join(vlib.scratch(), "impl_%s_%d_%d_%d_%d.ndjson" % k)
+        if os.path.getsize(path) == 0:
+            return k, None
+        return k, vlib.tlc(SPEC, IMPL[kind], cfg, env={"TRACE_FILE": path}, workers=1, timeout=900)
+    bound, drift = 0, []
+    with ThreadPoolExecutor(max_workers=6) as ex:
+        for k, r in ex.map(one, list(cfgs)):
+            if r is None:
+                continue
+            if not r["ok"]:
+                res.notes.append("state binding of %s %s did not complete (no verdict depends on it): %s" % (k[0], k[1:], r["out"][-300:].replace("\n", " ")))
+                continue
+            bound += len(vlib.prints(r["out"], "BOUND"))
+            drift += [(k, x[1], x[2], x[3]) for x in vlib.prints(r["out"], "DRIFT")]
+    res.cov["impl_bound_traces"] = bound
+    res.cov["impl_drifted_traces"] = len(drift)
+    if drift:
+        res.notes.append("MODEL-DRIFT (state binding): in %d of %d forced replays the engine's reported state left the model's, first: %s" % (len(drift), bound + len(drift), drift[0]))
+        print("MODEL-DRIFT (state binding): %d traces, first %s" % (len(drift), drift[0]))
+    else:
+        res.notes.append("state binding: in all %d forced replays the state reported from inside the engine (rows buffered, current slot, open windows, firing, pass watermark) and every delivery equal the code-shaped model's after each step" % bound)
 
 
 def session_late_stage(res, rng, vh, scen, plan, free_plan):
